@@ -299,8 +299,18 @@ func (s *Solver) readLine() (string, error) {
 func (s *Solver) Check() Result {
 	t0 := time.Now()
 	s.fbActive = false
+	errsBefore := s.stats.Errors
 	res := s.check1()
-	if res == Unknown && s.cmd != nil && s.fastMs > 0 && s.fastMs < s.timeoutMs {
+	if s.stats.Errors != errsBefore && s.cmd != nil {
+		// the solver printed an error (e.g. "push canceled" when the time limit hits inside a
+		// push): the session's assertion stack can no longer be trusted. Decide this query in a
+		// fresh process and rebuild the session.
+		res = s.fallbackCheck()
+		s.rebuild()
+		if res != Unknown {
+			s.sawError = false
+		}
+	} else if res == Unknown && s.cmd != nil && s.fastMs > 0 && s.fastMs < s.timeoutMs {
 		// the incremental core stalls on some queries that a fresh non-incremental run decides
 		// quickly: re-decide the current assertion stack in a fresh solver process.
 		s.Retries++
